@@ -15,8 +15,8 @@ EXTRACT = ['guards']
 LEAN_TARGETS = ['DeepModel.Props.C20']
 AUDIT = 'DeepModel/Audit/C20.lean'
 DRIVER = 'DeepModel/Driver/C20.lean'
-BUDGET = {'quick': 330, 'thorough': 5000}
-TIME = {'quick': 75, 'thorough': 840}
+BUDGET = {'quick': 330, 'thorough': 3000}
+TIME = {'quick': 75, 'thorough': 600}
 EXHAUSTIVE = True
 RULE = ('two streams. load: built-in plugins switched on/off by PLUGIN_<NAME> + 0-7 custom plugin names (module missing, class '
         'missing, name without a dot, constructor raising, switched off by config with several spellings, order() in '
